@@ -81,8 +81,8 @@ CHECKS = {
 }
 
 NOT_APPLICABLE = {
- "C03": "whole-system property over two clients, bus, funder, adjudicator and watcher under real goroutine schedules observed on a ledger; not a bounded computation over data that can be encoded for an SMT solver",
- "C04": "adversarial timing of on-chain registration against concurrent updates across client, watcher and ledger; whole-program concurrency, not encodable (its data-dependent core is C05)",
+ "C03": "the property is observed on a ledger (payouts, totals, 'nothing remains held'): the adjudicator/funder with challenge timeouts and balances is not part of go-perun's code (only a wall-clock test mock exists), so deciding it means inventing and modelling that environment and running whole open-update-settle scenarios of two clients with watcher and subscription loops over time - a protocol model of an assumed ledger rather than symbolic execution of the real code; beyond what the encoder reaches. The parts that are real code are claimed separately: agreement on the last state (C06), what is countersigned (C07), what the watcher registers (C05), what the adjudicator is asked per ledger (C20), what the machine lets through (C01/C02/C09)",
+ "C04": "needs the same invented ledger as C03 plus adversarial timing of on-chain registration against in-flight updates measured against the challenge period (logical time on a ledger that is not part of the code); its data-dependent core - the watcher refutes with the newest channel-tree states exactly once - is claimed as C05, including concurrent events for a channel family",
 }
 PENDING = "check not built yet in this session (will be registered once its bounds run clean on the unchanged tree)"
 
